@@ -149,7 +149,7 @@ NOWORK = [("conv1d", (1,)), ("conv_single_noncons", (2, 3)), ("conv_single_cons"
 
 
 def work_strata(tier):
-    ns = {1: [8, 9, 12, 16], 2: [8, 9, 12], 3: [8, 9]} if tier == "quick" else {1: list(range(6, 31, 1)), 2: list(range(6, 19)), 3: list(range(6, 14))}
+    ns = {1: [8, 9, 12, 16, 18], 2: [8, 9, 12], 3: [6, 8, 9]} if tier == "quick" else {1: list(range(6, 31, 1)), 2: list(range(6, 19)), 3: list(range(6, 14))}
     return [dict(id="%s-D%d-N%d" % (v, D, N), v=v, D=D, N=N) for v, dims in NOWORK for D in dims for N in ns[D]]
 
 
@@ -197,6 +197,19 @@ def work_check(case):
     Nu = orc.irfftn(np.asarray(Nh), N)
     scale = float(np.max(np.abs(u))) * float(np.max(np.abs(Nu))) * N**D + 1e-300
     res.claim("energy_work", abs(float(np.sum(u * Nu))), 1e-11 * scale, key=key + ":energy")
+    # the same on the band the function itself retains (its own dealiasing mask): the triple products
+    # of whatever it keeps must be alias-free, otherwise integration by parts fails discretely
+    mask = np.asarray(nf.dealiasing_mask)
+    w = orc.irfftn(mask * orc.rfftn(orc.white(case["seed"] + 1, (C,) + (N,) * D, 1.0)), N) + case["mean"]
+    if v == "projected3d":
+        w = orc.leray_np(w)
+    ok, Wh = res.lib("call", nf, jnp.asarray(orc.rfftn(w)), key=key)
+    if ok:
+        Nw = orc.irfftn(np.asarray(Wh), N)
+        sc = float(np.max(np.abs(w))) * float(np.max(np.abs(Nw))) * N**D + 1e-300
+        res.claim("energy_work_on_own_retained_band", abs(float(np.sum(w * Nw))), 1e-11 * sc, key=key + ":energy_own_band")
+        if v == "vorticity2d":
+            res.claim("enstrophy_work_on_own_retained_band", abs(float(np.sum(w * Nw))), 1e-11 * sc, key=key + ":energy_own_band")
     if v == "vorticity2d":
         # stream function by an own inverse Laplacian
         kap = 2 * math.pi / L * orc.fft_wavenumbers(D, N)
